@@ -36,10 +36,13 @@ def physical_line_problems(text):
 
 
 def compare_graphs(c, g, g2, prefix=""):
+    """g2 = read(write(g)): the i-th atom read back corresponds to the i-th atom of g in iteration order."""
     n1, n2 = list(g.nodes(data=True)), list(g2.nodes(data=True))
-    c.oblige(prefix + "same-atoms-in-the-same-order", [k for k, _ in n1] == [k for k, _ in n2])
+    c.oblige(prefix + "same-number-of-atoms-numbered-in-file-order", len(n1) == len(n2) and [k for k, _ in n2] == list(range(len(n2))))
     if len(n1) != len(n2):
         return
+    pos1 = {k: i for i, (k, _) in enumerate(n1)}
+    pos2 = {k: i for i, (k, _) in enumerate(n2)}
     conds = []
     for (_, d1), (_, d2) in zip(n1, n2):
         conds.append(d1.get("element_symbol") == d2.get("element_symbol"))
@@ -48,8 +51,8 @@ def compare_graphs(c, g, g2, prefix=""):
         for key in ("x_coord", "y_coord", "z_coord"):
             conds.append(float(f"{d1.get(key, 0):.6f}") == d2.get(key))
     c.oblige(prefix + "atom-attributes-read-back", all_(conds))
-    e1 = {tuple(sorted((u, v))): d for u, v, d in g.edges(data=True)}
-    e2 = {tuple(sorted((u, v))): d for u, v, d in g2.edges(data=True)}
+    e1 = {tuple(sorted((pos1[u], pos1[v]))): d for u, v, d in g.edges(data=True)}
+    e2 = {tuple(sorted((pos2[u], pos2[v]))): d for u, v, d in g2.edges(data=True)}
     c.oblige(prefix + "same-bonds", sorted(e1) == sorted(e2) and g2.number_of_edges() == g.number_of_edges())
     if sorted(e1) == sorted(e2):
         c.oblige(prefix + "bond-types-read-back", all_([eq(e1[k].get("bond_type", 1), e2[k].get("bond_type")) for k in e1]) if e1 else True)
@@ -80,6 +83,9 @@ def c09(**p):
         for (a, b) in list(mol.bonds):
             mol.bonds[(a, b)] = {"bond_type": c.int(f"bt{a}_{b}")} if not p.get("default_bond_type") else {}
         g = graph_of(mol.listing())
+        if p.get("scramble"):
+            from harness.pipeline import scramble
+            g = scramble(c, g)            # numbering differs from listing order (e.g. a canonicalized graph)
         text = T()["write"](g)
         c.note("mol", mol.describe())
         c.note("molfile_body", text.split("\n", 2)[2])
